@@ -43,7 +43,9 @@ SetOf(q) == {q[i] : i \in 1..Len(q)}
 (* ---- the model: what one public call does to (path depth, list lengths) ---- *)
 M_New(d1, c1) == d1 = 0 /\ c1 = Zero
 M_StartPage(d1, c1) == d1 = 1 /\ c1 = Zero                  \* path = <<title>>, lists emptied
-M_Call(d0, c0, d1, c1) == d1 = d0 /\ \A k \in Lists : c1[k] >= c0[k]   \* path restored, lists only grow
+M_PathKept(d0, d1) == d1 = d0
+M_Grow(c0, c1) == \A k \in Lists : c1[k] >= c0[k]
+M_Call(d0, c0, d1, c1) == M_PathKept(d0, d1) /\ M_Grow(c0, c1)          \* path restored, lists only grow
 M_Emit(k, d0, c0, d1, c1) == d1 = d0 /\ c1 = [c0 EXCEPT ![k] = @ + 1]
 M_Keep(d0, c0, d1, c1) == d1 = d0 /\ c1 = c0
 
@@ -65,16 +67,16 @@ Clauses(e) ==
       stamped == (call \/ emit) /\ Top(e) /\ SamePage(e)
   IN
   [ \* --- the statement of C16 ---
-    path_restored  |-> (call /\ Top(e)) => M_Call(e.es0, e.m, e.es, e.m),
+    path_restored  |-> (call /\ Top(e)) => M_PathKept(e.es0, e.es),
     lists_emptied  |-> (e.op = "start_page" /\ Returned(e)) => e.m = Zero,
     msg_keys       |-> stamped => AllNew(e, LAMBDA m : SetOf(m.keys) = DocKeys /\ m.tuple),
     msg_title      |-> stamped => AllNew(e, LAMBDA m : m.title = StampT(e.title)),
     msg_section    |-> stamped => AllNew(e, LAMBDA m : m.section = StampS(e.section)),
     \* --- what the model says beyond the statement ---
-    nested_restored |-> (call /\ e.nested) => e.es = e.es0,
+    nested_restored |-> (call /\ e.nested) => M_PathKept(e.es0, e.es),
     init_clean     |-> (e.op = "init" /\ Returned(e)) => M_New(e.es, e.m),
     start_depth    |-> (e.op = "start_page" /\ Returned(e)) => e.es = 1,
-    lists_grow     |-> (call /\ Top(e) /\ SamePage(e)) => M_Call(e.es0, e.m0, e.es0, e.m),
+    lists_grow     |-> (call /\ Top(e) /\ SamePage(e)) => M_Grow(e.m0, e.m),
     emit_one       |-> emit => M_Emit(ListOf(e.op), e.es0, e.m0, e.es, e.m),
     keeps          |-> (e.op \in KeepOps /\ Returned(e) /\ Top(e)) => M_Keep(e.es0, e.m0, e.es, e.m),
     sync           |-> (Top(e) /\ e.op # "init") => (e.es0 = depth /\ e.m0 = cnt) ]
@@ -91,7 +93,8 @@ IsEvent(e, ops) == e.op \in ops
 NewContext(e) == IsEvent(e, {"init"}) /\ started' = FALSE
 StartPage(e) == IsEvent(e, {"start_page"}) /\ started' = Returned(e)
 Other(e) == IsEvent(e, CallOps \cup EmitOps \cup KeepOps) /\ UNCHANGED started
-Bind(e) == depth' = e.es /\ cnt' = e.m
+\* (a nested call returns before the call that encloses it: only top-level events move the model)
+Bind(e) == IF e.nested THEN UNCHANGED <<depth, cnt>> ELSE depth' = e.es /\ cnt' = e.m
 
 Next == /\ l <= Len(Events)
         /\ \E e \in {Events[l]} : (NewContext(e) \/ StartPage(e) \/ Other(e)) /\ Bind(e) /\ Check(e)
@@ -99,7 +102,5 @@ Next == /\ l <= Len(Events)
 Spec == Init /\ [][Next]_vars
 
 Verdict == (l = Len(Events) + 1) => PrintT(<<"VERDICT", ToJson([consumed |-> l - 1, bad |-> bad])>>)
-\* the model state is always a state of the action system
-TypeOK == depth \in Nat /\ \A k \in Lists : cnt[k] \in Nat
 Accepted == TLCGet("stats").diameter = Len(Events) + 1
 =============================================================================
